@@ -594,6 +594,20 @@ def run(ctx):
     small = [c for c in cases if c.mode in (("packrat", 0), ("packrat", 1), ("packrat", 2), ("off",))]
     leg_fine(ctx, pp, small[:: max(1, len(small) // ctx.budget(36, 120))], ctx.budget(10, 30), "base")
     leg_stress(ctx, pp, cases[:: max(1, len(cases) // ctx.budget(16, 80))], ctx.budget(2, 6), "base")
+    # parse_all=True builds `Empty() + StringEnd()` afresh per call (fresh cache keys), so it is outside the
+    # table-driven model runs: oracle only (region schedules + stress)
+    rng = ctx.subrng("parse-all")
+    pa = []
+    for gname, ins in INPUTS.items():
+        for mode in (("off",), ("packrat", 1), ("packrat", 128)):
+            pa.append(Case(pp, mode, gname, "parse_all", [rng.choice(ins), rng.choice(TWINS[gname])]).learn())
+    stats = {}
+    for c in pa:
+        for _ in range(ctx.budget(4, 20)):
+            ses, outs, status = c.forced("region", chooser=uniform_chooser(rng))
+            c.check_outcomes(ctx, outs, status, {"gran": "region", "sched": list(ses.sched_done)}, stats)
+    ctx.count_cases("oracle-parse-all", sum(stats.values()), outcomes=stats)
+    leg_stress(ctx, pp, pa[::3], ctx.budget(1, 4), "parse-all")
     if ctx.broken and not ctx.fail_inputs:
         # a proof obligation / trace validation / correspondence broke: search harder for a failing input
         leg_fine(ctx, pp, small, ctx.budget(25, 100), "search")
